@@ -42,9 +42,9 @@ MECHANISMS = [
 ]
 REQUIRED_MONITORS = ['channels_read_back', 'values_within_print_tolerance', 'reader_equals_token', 'tokenizer_consistency',
                      'three_writers_equal_combined', 'contract:LASSectionArray.add_member_line', 'contract:LASSectionArray.finalise']
-MIN_NONTRIVIAL = {'quick': 1500, 'thorough': 80000}
+MIN_NONTRIVIAL = {'quick': 4500, 'thorough': 80000}
 TIMEOUT_S = {'quick': 300, 'thorough': 3000}
-N_ARRAYS = {'quick': 3200, 'thorough': 160000}
+N_ARRAYS = {'quick': 9600, 'thorough': 160000}
 NSHARDS = 16
 REDUCTIONS = ['first', 'mean', 'median', 'min', 'max']
 LEVEL_TEXT = ('Random frame arrays written by the real LAS writer functions, read back by the real LASRead and by an independent '
